@@ -25,6 +25,7 @@ pub struct Node {
     pub back: Option<oneshot::Receiver<(Replica<Tap>, Box<dyn Server>)>>,
     pub avoid: bool,
     pub pending_fault: Option<(u64, FailKind)>,
+    pub fetched: Option<Vec<Operation>>,
 }
 
 pub struct World {
@@ -84,6 +85,7 @@ impl World {
                 back: None,
                 avoid: avoid.contains(rid),
                 pending_fault: None,
+                fetched: None,
             });
         }
         World {
@@ -121,13 +123,20 @@ impl World {
 
     pub async fn edit(&mut self, i: usize, ops: Vec<Operation>, ops_json: Vec<Value>) {
         let rid = self.nodes[i].rid.clone();
-        self.nodes[i].shared.lock().unwrap().commits.clear();
+        {
+            let pf = self.nodes[i].pending_fault.take();
+            let mut sh = self.nodes[i].shared.lock().unwrap();
+            sh.commits.clear();
+            sh.calls = 0;
+            sh.fail_at = pf;
+        }
         let res = self.nodes[i]
             .rep
             .as_mut()
             .expect("replica idle")
             .commit_operations(ops)
             .await;
+        self.nodes[i].shared.lock().unwrap().fail_at = None;
         let st = self.observe(i).await;
         let post = self.db_json(&st);
         self.emit(json!({"a":"Edit","r":rid,"ops":ops_json,
@@ -240,6 +249,92 @@ impl World {
     pub async fn full_sync(&mut self, i: usize) {
         self.start(i).await;
         self.finish(i).await;
+    }
+
+    pub async fn get_undo(&mut self, i: usize) {
+        let rid = self.nodes[i].rid.clone();
+        let ops = self.nodes[i]
+            .rep
+            .as_mut()
+            .expect("replica idle")
+            .get_undo_operations()
+            .await
+            .expect("get_undo_operations");
+        let oj: Vec<Value> = ops
+            .iter()
+            .map(|o| self.ctx.borrow_mut().model.op_to_json(o))
+            .collect();
+        self.nodes[i].fetched = Some(ops);
+        self.emit(json!({"a":"GetUndo","r":rid,"ops":oj}));
+    }
+
+    pub async fn undo(&mut self, i: usize) {
+        let rid = self.nodes[i].rid.clone();
+        let Some(ops) = self.nodes[i].fetched.take() else {
+            return;
+        };
+        let oj: Vec<Value> = ops
+            .iter()
+            .map(|o| self.ctx.borrow_mut().model.op_to_json(o))
+            .collect();
+        {
+            let pf = self.nodes[i].pending_fault.take();
+            let mut sh = self.nodes[i].shared.lock().unwrap();
+            sh.commits.clear();
+            sh.calls = 0;
+            sh.fail_at = pf;
+        }
+        let res = self.nodes[i]
+            .rep
+            .as_mut()
+            .expect("replica idle")
+            .commit_reversed_operations(ops)
+            .await;
+        self.nodes[i].shared.lock().unwrap().fail_at = None;
+        let commits: Vec<DbState> =
+            std::mem::take(&mut self.nodes[i].shared.lock().unwrap().commits);
+        let r = match &res {
+            Ok(true) => "true",
+            Ok(false) => "false",
+            Err(e) if format!("{e:#}").contains("injected") => "injected",
+            Err(_) => "error",
+        };
+        let first = match commits.first() {
+            Some(st) => st.clone(),
+            None => self.observe(i).await,
+        };
+        let post = self.db_json(&first);
+        self.emit(json!({"a":"Undo","r":rid,"undo":oj,"res":r,"post":post}));
+        for st in commits.iter().skip(1) {
+            let post = self.db_json(st);
+            self.emit(json!({"a":"Rebuild","r":rid,"renumber":false,"post":post}));
+        }
+    }
+
+    pub async fn rebuild(&mut self, i: usize, renumber: bool) {
+        let rid = self.nodes[i].rid.clone();
+        let res = self.nodes[i]
+            .rep
+            .as_mut()
+            .expect("replica idle")
+            .rebuild_working_set(renumber)
+            .await;
+        let st = self.observe(i).await;
+        let post = self.db_json(&st);
+        self.emit(json!({"a":"Rebuild","r":rid,"renumber":renumber,
+            "res": if res.is_ok() {"ok"} else {"error"}, "post":post}));
+    }
+
+    pub async fn install_ws(&mut self, i: usize, ws: &[String]) {
+        let rid = self.nodes[i].rid.clone();
+        let mut v = vec![None];
+        for t in ws {
+            v.push(if t == "~" { None } else { Some(self.ctx.borrow().model.task(t)) });
+        }
+        self.nodes[i].shared.lock().unwrap().install_ws = Some(v);
+        let st = self.observe(i).await;
+        let post = self.db_json(&st);
+        self.emit(json!({"a":"InstallWS","r":rid,"ws":ws,"post":post}));
     }
 
     /// arm a storage fault for the next sync of replica i
@@ -369,6 +464,45 @@ pub async fn run_behaviour(b: &Value, dir: Option<PathBuf>) -> Vec<Value> {
                 let k = s["k"].as_u64().unwrap();
                 w.arm_storage_fault(i, k, FailKind::Error);
             }
+            "GetUndo" => {
+                let i = w.idx(s["r"].as_str().unwrap());
+                if !w.nodes[i].running {
+                    w.get_undo(i).await;
+                }
+            }
+            "Undo" => {
+                let i = w.idx(s["r"].as_str().unwrap());
+                if !w.nodes[i].running {
+                    w.undo(i).await;
+                }
+            }
+            "Rebuild" => {
+                let i = w.idx(s["r"].as_str().unwrap());
+                if !w.nodes[i].running {
+                    w.rebuild(i, s["urg"].as_str() == Some("renumber")).await;
+                }
+            }
+            "Install" => {
+                // the same prior state on every replica: commit the operations, then write the
+                // working set directly through the storage API
+                let wsv: Vec<String> = s["ws"]
+                    .as_array()
+                    .map(|a| a.iter().map(|x| x.as_str().unwrap().to_string()).collect())
+                    .unwrap_or_default();
+                for i in 0..w.nodes.len() {
+                    let mut ops = vec![];
+                    let mut opsj = vec![];
+                    for j in s["ops"].as_array().unwrap() {
+                        let op = w.ctx.borrow_mut().model.op_from_json(j);
+                        opsj.push(w.ctx.borrow_mut().model.op_to_json(&op));
+                        ops.push(op);
+                    }
+                    if !ops.is_empty() {
+                        w.edit(i, ops, opsj).await;
+                    }
+                    w.install_ws(i, &wsv).await;
+                }
+            }
             "FullSync" => {
                 let i = w.idx(s["r"].as_str().unwrap());
                 w.full_sync(i).await;
@@ -382,7 +516,10 @@ pub async fn run_behaviour(b: &Value, dir: Option<PathBuf>) -> Vec<Value> {
         let st = w.observe(i).await;
         let post = w.db_json(&st);
         let rid = w.nodes[i].rid.clone();
-        w.emit(json!({"a":"Observe","r":rid,"post":post}));
+        let rep = w.nodes[i].rep.as_mut().unwrap();
+        let nlocal = rep.num_local_operations().await.unwrap_or(usize::MAX);
+        let nundo = rep.num_undo_points().await.unwrap_or(usize::MAX);
+        w.emit(json!({"a":"Observe","r":rid,"post":post,"nlocal":nlocal,"nundo":nundo}));
     }
     let lines = std::mem::take(&mut w.ctx.borrow_mut().lines);
     lines
